@@ -71,7 +71,7 @@ func checkC06(c c06Case) verdict {
 }
 
 var c06Main = newPart("C06", "main",
-	"rapid: C05 suites/secrets/inputs plus invalid suites (unusable configurations, zero RawSuite), inadmissible inputs (one selected field at a wrong length) and undecodable secrets; submitted strings: the generated code, single-character edits, truncations/extensions, the code for counter+1 / an edited challenge / timestamp+1 / a sibling suite (other digits or hash), arbitrary strings; oracle: GenerateOCRA on the same arguments (equivalence: ok == (x == g) when generation succeeds, (false, error) when it fails; accept => nil error, reject => error); non-trivial = rejected string sharing >= 1 leading character with the generated code, or a generation-fails case",
+	"rapid: C05 suites/secrets/inputs plus invalid suites (unusable configurations, zero RawSuite), inadmissible inputs (one selected field at a wrong length) and undecodable secrets; submitted strings: the generated code, single-character edits, truncations/extensions, the code for counter+1 / an edited challenge / timestamp+1 / a sibling suite (other digits or hash), the code of the same input in another ENCODING (decimal question vs. its RFC conversion, hex text vs. the bytes it spells), arbitrary strings; oracle: GenerateOCRA on the same arguments (equivalence: ok == (x == g) when generation succeeds, (false, error) when it fails; accept => nil error, reject => error); non-trivial = rejected string sharing >= 1 leading character with the generated code, or a generation-fails case",
 	checkC06)
 
 func genC06(t *rapid.T) c06Case {
@@ -139,13 +139,46 @@ func genC06(t *rapid.T) c06Case {
 			c.Failing = "input"
 		}
 	}
+	// a differently ENCODED input: the challenge as text (decimal question, hex text) vs. as the bytes that text stands
+	// for — a validator that "helpfully" retries with the other encoding accepts the code of an input that was not given
+	subKind := rapid.IntRange(0, 11).Draw(t, "subKind")
+	var reenc *ref.OCRAIn
+	if subKind >= 10 && cfg.Q && c.Failing == "" {
+		alt := in
+		switch rapid.IntRange(0, 3).Draw(t, "reencKind") {
+		case 0: // ASCII decimal question given; the RFC conversion of it (hex of the number, right-padded) is the other encoding
+			digits := drawDigits(t, decDigits, ref.QMin(cfg.QFormat), 20, "reencDec")
+			in.Q = []byte(digits)
+			alt.Q, _ = rfcQuestion(digits)
+		case 1: // the RFC conversion given; the ASCII digits are the other encoding
+			digits := drawDigits(t, decDigits, ref.QMin(cfg.QFormat), 20, "reencDec")
+			in.Q, _ = rfcQuestion(digits)
+			alt.Q = []byte(digits)
+		case 2: // hex text given; the bytes it spells are the other encoding
+			raw := rapid.SliceOfN(rapid.Byte(), ref.QMin(cfg.QFormat), 40).Draw(t, "reencRaw")
+			in.Q = []byte(fmt.Sprintf("%x", raw))
+			alt.Q = raw
+		default: // bytes given; their hex text is the other encoding
+			raw := rapid.SliceOfN(rapid.Byte(), ref.QMin(cfg.QFormat), 40).Draw(t, "reencRaw")
+			in.Q = raw
+			alt.Q = []byte(fmt.Sprintf("%X", raw))
+		}
+		full = overlay(cfg, in, full)
+		reenc = &alt
+	}
 	c.In = full
 	// what would be generated (reference), to build near-miss submissions
 	base, rerr := ref.OCRA(key, cfg, in)
 	if rerr != nil {
 		base = "000000"
 	}
-	switch rapid.IntRange(0, 9).Draw(t, "subKind") {
+	if reenc != nil {
+		if alt, e := ref.OCRA(key, cfg, *reenc); e == nil {
+			c.Code, c.Origin = []byte(alt), "reencoded-input"
+			return c
+		}
+	}
+	switch subKind % 10 {
 	case 0, 1, 2:
 		c.Code, c.Origin = []byte(base), "generated"
 	case 3, 4, 5:
